@@ -1045,8 +1045,10 @@ impl<K: AsRef<Key>> ServerSequence<K> {
                 &variables,
             )
         };
-        self.context.apply_signature(mac.as_ref());
+        // The next message digests this MAC as it appears on the wire, i.e.,
+        // after truncation.
         let mac = self.key().signature_slice(&mac);
+        self.context.apply_signature(mac);
         self.key().complete_message(message, &variables, mac)
     }
 
